@@ -442,8 +442,14 @@ func (c *Ctx) site(n int) { c.stats[c.curRule].Sites += n }
 // finishRule checks the floor.
 func (c *Ctx) finishRule() {
 	s := c.stats[c.curRule]
-	if s.Sites < s.Floor {
-		c.bad("floor", "", "", fmt.Sprintf("rule matched %d sites, fewer than the %d confirmed by reading: a construct the property depends on has disappeared or the rule no longer recognises it", s.Sites, s.Floor))
+	// a refactoring may merge or remove a few of the sites that were confirmed by reading; what must not happen is that
+	// the rule goes (nearly) blind: at least two thirds of the confirmed number have to be matched
+	need := (2*s.Floor + 2) / 3
+	if s.Floor > 0 && need < 1 {
+		need = 1
+	}
+	if s.Sites < need {
+		c.bad("floor", "", "", fmt.Sprintf("rule matched %d sites, fewer than two thirds of the %d confirmed by reading: a construct the property depends on has disappeared or the rule no longer recognises it", s.Sites, s.Floor))
 	}
 }
 
